@@ -176,6 +176,12 @@ pub const FOLLOWERS: &[(&str, &str)] = &[
     ("space-brace", " {x}"),
     ("space-bang", " !(x)"),
     ("crlf-dot", "\r\n.x"),
+    // two dots are no member access: a range is not part of an `@expression`
+    ("dotdot-ident", "..last"),
+    ("dotdot-eq", "..=9"),
+    ("dotdot-paren", "..(more)"),
+    ("dotdot-space", ".. x"),
+    ("ellipsis-ident", "...b"),
 ];
 
 fn gen_cases(args: &crate::Args) -> Vec<Case> {
